@@ -13,6 +13,7 @@ import math
 from unittest import mock
 
 from twisted.internet import endpoints as tw_endpoints
+from twisted.internet import error as tw_error
 from twisted.internet.address import IPv4Address
 from twisted.internet.defer import Deferred
 from twisted.internet.task import Clock, Cooperator
@@ -46,7 +47,8 @@ TRUSTED = [
 ]
 RULE = ("type-directed JSON hint lists: valid direct/tor/relay hints over a small pool of hosts/ports/priorities "
         "(so duplicates and equal priorities occur), field-wise mutations (delete, replace by every JSON type, nest, "
-        "duplicate, retype), numeric twins (a valid hint next to a copy that is == in Python but of another JSON type: float/bool "
+        "duplicate, retype), fates of the started attempts (refused / unreachable / timed out / bad "
+        "handshake / pending, last one optionally connecting) with connect() compared against the model's race outcome, numeric twins (a valid hint next to a copy that is == in Python but of another JSON type: float/bool "
         "port, bool or int/float priority; top-level and inside relay-v1; both orders; one list or two calls), random JSON structures; each list goes through parse_hint, Transit.add_connection_hints+"
         "_connect (Clock, recorder endpoints, with/without Tor stub, listener, own relay) and a real Manager/Connector "
         "via received_dilation_message; thorough adds exhaustive single-field replacement over the atom table; "
@@ -288,6 +290,10 @@ def twin_adds(rng, valid=None, relay=None):
     return [pad() + [pair[0]], [pair[1]] + pad()]
 
 
+# what becomes of the started attempts, cycled over them in start order ('p' stays pending, 't' TCP-level failure,
+# 'h' handshake failure); with win="last" the last attempt connects and negotiates
+FATES = [["p"], ["p"], ["t"], ["h"], ["t", "p"], ["p", "t"], ["t", "h"], ["h", "t", "p"]]
+
 MGR_STATES = ["CONNECTING", "CONNECTING", "CONNECTING", "CONNECTING", "WANTING", "CONNECTED", "FLUSHING", "LONELY",
               "ABANDONING", "STOPPING"]
 
@@ -361,6 +367,17 @@ def _env(rng):
 def cases(rng, tier):
     n = 1 if tier == "quick" else 25
     out = []
+    dead_then_good = [{"type": "direct-tcp-v1", "hostname": "192.0.2.7", "port": 9, "priority": 0.0},
+                      {"type": "direct-tcp-v1", "hostname": 12, "port": 1}, {"type": "relay-v1", "hints": "nope"}, ["not", "a", "dict"],
+                      {"type": "relay-v1", "hints": [{"type": "direct-tcp-v1", "hostname": "dead-relay.example", "port": 9}]},
+                      {"type": "direct-tcp-v1", "hostname": "good.example", "port": 4001, "priority": 0.0},
+                      {"type": "relay-v1", "hints": [{"type": "direct-tcp-v1", "hostname": "198.51.100.20", "port": 4001, "priority": 2}]}]
+    for fates in FATES[2:]:
+        for win in ("last", "none"):
+            for listener in (False, True):
+                for tor in (False, True):
+                    out.append(dict(kind="transit", tor=tor, listener=listener, own=tor, receiver=listener, adds=[dead_then_good],
+                                    fates=fates, win=win))
     for hl in CORPUS_HINTS:
         for tor in (False, True):
             out.append(dict(kind="parse", values=hl))
@@ -437,7 +454,8 @@ def cases(rng, tier):
                             msgs=[{"type": "connection-hints", "hints": a} for a in twin_adds(rng)]))
         elif r < 0.62:
             out.append(dict(kind="transit", tor=e["tor"], listener=e["listener"], own=e["own"], receiver=e["receiver"],
-                            adds=[gen_hint_list(rng, adv) for _ in range(rng.choice([1, 1, 2, 3]))]))
+                            adds=[gen_hint_list(rng, adv) for _ in range(rng.choice([1, 1, 2, 3]))],
+                            fates=rng.choice(FATES), win=rng.choice(["last", "last", "last", "none"])))
         elif r < 0.97:
             out.append(dict(kind="dilation", tor=e["tor"], nolisten=e["nolisten"], own=e["own"],
                             mgr=rng.choice(MGR_STATES), con=rng.choice(["connecting", "connecting", "connecting", "connected"]),
@@ -623,9 +641,26 @@ def expected_relay(hints, tor, all_lists):
     return out
 
 
-def play_peer(w, t, key):
-    """be the peer on the most recently started, still pending connection: complete the transit handshake"""
-    host, port, factory, _t, _b = w.clock.tcpClients[-1]
+TCP_ERRORS = [tw_error.ConnectionRefusedError, tw_error.NoRouteError, tw_error.TCPTimedOutError, tw_error.TimeoutError,
+              tw_error.ConnectError, tw_error.DNSLookupError, tw_error.ConnectBindError]
+
+
+def fail_attempt(w, i, how):
+    """attempt `i` (in the order the attempts were started) meets its fate: 't' the TCP connection fails
+    (refused / no route / timed out …), 'h' it connects and the transit handshake goes wrong"""
+    _host, _port, factory, _t, _b = w.clock.tcpClients[i]
+    if how == "t":
+        factory.clientConnectionFailed(w.clock.connectors[i], Failure(TCP_ERRORS[i % len(TCP_ERRORS)]()))
+    else:
+        proto = factory.buildProtocol(IPv4Address("TCP", "127.0.0.1", 1))
+        proto.makeConnection(StringTransport())
+        proto.dataReceived(b"HTTP/1.0 400 this is not a transit peer\n")
+        proto.connectionLost(Failure(tw_error.ConnectionDone()))
+
+
+def play_peer(w, t, key, i=-1):
+    """be the peer on a started, still pending connection: complete the transit handshake"""
+    host, port, factory, _t, _b = w.clock.tcpClients[i]
     proto = factory.buildProtocol(IPv4Address("TCP", "127.0.0.1", 1))
     proto.makeConnection(StringTransport())
     inner = getattr(factory, "_wrappedFactory", factory)
@@ -844,17 +879,45 @@ def run_transit(case, force_tor=False):
                         viol.append(("valid-hint-not-dialled", f"transit: valid hint {hp!r} never became a connection "
                                                                f"attempt (hints {case['adds']!r})"))
             pending = w.pending()
+            n = len(pending)
+            spec = case.get("fates") or ["p"]
+            fate = [spec[i % len(spec)] for i in range(n)]
+            if case.get("win", "last") == "last" and n:
+                fate[-1] = "c"
             if res and pending:
                 viol.append(("transfer-aborted-by-hint", f"connect() finished with {res[0]!r} while attempts to {pending!r} were "
                                                          f"still pending (hints {case['adds']!r}, synchronously failed: {w.sync_failed!r})"))
-            elif pending:
-                who = play_peer(w, t, b"\x00" * 32)
-                tags.append("winner-played")
-                if not res or not isinstance(res[0], transit.Connection):
-                    viol.append(("valid-hint-cannot-win", f"peer completed the handshake on {who!r} but connect() gave "
-                                                          f"{(res[0] if res else 'nothing')!r} (hints {case['adds']!r})"))
-            elif not res and not case["listener"]:
-                viol.append(("connect-never-finishes", "no attempt pending, no listener, and connect() has not fired"))
+            else:
+                # ---- the attempts meet their fates: dead hints first, then (if any) the one that connects
+                dead = [(i, pending[i], fate[i]) for i in range(n) if fate[i] in "th"]
+                for i, _hp, how in dead:
+                    fail_attempt(w, i, how)
+                if dead:
+                    tags.append("dead-hints:" + "".join(sorted({f for _, _, f in dead})))
+                    w.clock.advance(1.0)         # HostnameEndpoint notices that its only address failed
+                alive = case["listener"] or any(f in "pc" for f in fate)
+                if res and alive:
+                    viol.append(("transfer-aborted-by-dead-hint",
+                                 f"connect() finished with {res[0]!r} after the attempts {[(hp, f) for _, hp, f in dead]!r} failed "
+                                 f"('t' = TCP-level failure, 'h' = bad handshake), although "
+                                 f"{'the listener' if case['listener'] else 'other attempts'} could still win; all attempts: "
+                                 f"{list(zip(pending, fate))!r} (hints {case['adds']!r})"))
+                elif "c" in fate:
+                    who = play_peer(w, t, b"\x00" * 32, n - 1)
+                    tags.append("winner-played")
+                    if not res or not isinstance(res[0], transit.Connection):
+                        viol.append(("valid-hint-cannot-win", f"peer completed the handshake on {who!r} but connect() gave "
+                                                              f"{(res[0] if res else 'nothing')!r} (attempts {list(zip(pending, fate))!r}, "
+                                                              f"hints {case['adds']!r})"))
+                elif not alive and not res:
+                    viol.append(("connect-never-finishes", f"every attempt failed ({list(zip(pending, fate))!r}), no listener, "
+                                                           f"and connect() has not fired"))
+                if res and not isinstance(res[0], (Failure, transit.Connection)):
+                    viol.append(("connect-result-not-a-connection", f"connect() fired with {res[0]!r} (attempts "
+                                                                    f"{list(zip(pending, fate))!r}, hints {case['adds']!r})"))
+                lines.append(f"trace {int(case['listener'])} " + " ".join(fate))
+                exp.append("pending" if not res else "failed" if isinstance(res[0], Failure) else
+                           f"connection {n - 1}" if isinstance(res[0], transit.Connection) else "bogus " + type(res[0]).__name__)
         for e in w.errors:
             tags.append("logged:" + e)
     if has_surrogate(case["adds"]):
